@@ -68,8 +68,12 @@ func (s *Scheduler) Schedule(g *ExecutionGraph) error {
 				continue
 			}
 
+			// the same graph can be scheduled by several stages at once: a stage is started by the pass that wins
+			if !atomic.CompareAndSwapInt32(&stage.Status, StatusWaiting, StatusRunning) {
+				continue
+			}
+
 			wg.Add(1)
-			stage.UpdateStatus(StatusRunning)
 			go func(stage *Stage) {
 				defer func() {
 					stage.End = time.Now()
@@ -80,12 +84,14 @@ func (s *Scheduler) Schedule(g *ExecutionGraph) error {
 
 				err := s.runStage(stage)
 				if err != nil {
-					stage.UpdateStatus(StatusError)
-
 					if !stage.AllowFailure {
+						// the error is recorded before the stage counts as finished
 						g.error = err
+						stage.UpdateStatus(StatusError)
 						return
 					}
+
+					stage.UpdateStatus(StatusError)
 				}
 
 				stage.UpdateStatus(StatusDone)
